@@ -199,6 +199,14 @@ def run_case(case):
     ck = Checker(classes=[f"source:{case['source']}", f"mode:{case['mode']}", "degrees" if case["degrees"] else "radian"])
     for c in ("ra", "dec"):
         ck.cls(f"dtype:{table['dtypes'][c]}")
+    if case["mode"] == "centers":
+        # precondition (C09/C12 domain): every centre attracts an object, no object is equidistant
+        cen = np.array(case["centers"], dtype=float)
+        want0, margin0 = pl.nearest_centre(pl.to_xyz(exp[:, 0], exp[:, 1]), pl.to_xyz(cen[:, 0], cen[:, 1]))
+        if margin0.min() < 1e-12:
+            return Result.discard("equidistant-object")
+        if len(set(want0.tolist())) != len(cen):
+            return Result.discard("centre-without-object")
     with Scratch() as tmp:
         fakes = []
         try:
@@ -209,7 +217,7 @@ def run_case(case):
             ck.fail("create:real-pool:hang", str(e))
             return ck.results()
         except Exception as e:  # noqa
-            if case["mode"] == "num" and "contains no data" in str(e):
+            if case["mode"] == "num" and ("contains no data" in str(e) or "writer process failed" in str(e)):
                 return Result.discard("kmeans-empty-patch")
             ck.fail(f"create|{exc_sig(e)}", f"{type(e).__name__}: {e}")
             return ck.results()
@@ -277,7 +285,7 @@ def run_case(case):
                 same = sorted(sb) == sorted(stored) and all(sources.multiset(sb[k]) == sources.multiset(stored[k]) for k in stored)
             ck.expect(same, "variant:differs", f"a={case['a']} b={case['b']}")
         except Exception as e:  # noqa
-            if not (case["mode"] == "num" and isinstance(e, ValueError) and "contains no data" in str(e)):
+            if not (case["mode"] == "num" and ("contains no data" in str(e) or "writer process failed" in str(e))):
                 ck.fail(f"create-variant|{exc_sig(e)}", f"{type(e).__name__}: {e}")
     return ck.results()
 
@@ -332,12 +340,13 @@ def run_random(case):
                         cat = Catalog.from_random(tmp / "r", gen_, n, patch_centers=centre, chunksize=var["chunksize"], max_workers=var["workers"], progress=var["progress"])
                 else:
                     cat = Catalog.from_random(tmp / "r", gen_, n, patch_centers=centre, chunksize=var["chunksize"], max_workers=1, progress=var["progress"])
-        except ValueError as e:
-            if "contains no data" in str(e):
-                return Result.discard("centre-without-object")
-            ck.fail(f"create-random|{exc_sig(e)}", str(e))
-            return ck.results()
         except Exception as e:  # noqa
+            emitted = np.concatenate(log) if log else np.empty(0)
+            if len(emitted):
+                cen = np.asarray(centre.data)
+                want, _ = pl.nearest_centre(pl.to_xyz(emitted["ra"], emitted["dec"]), pl.to_xyz(cen[:, 0], cen[:, 1]))
+                if len(set(want.tolist())) != len(cen):
+                    return Result.discard("centre-without-object")
             ck.fail(f"create-random|{exc_sig(e)}", f"{type(e).__name__}: {e}")
             return ck.results()
         stored = sources.stored_records(cat)
